@@ -1,6 +1,7 @@
 package checks
 
 import (
+	"bytes"
 	"context"
 	"crypto/x509"
 	"errors"
@@ -189,6 +190,13 @@ func c18Scenarios(tier mc.Tier) []mc.Scenario {
 	return out
 }
 
+// c18Kept is a CRL a fetch handed out, with copies of its bytes taken at that moment.
+type c18Kept struct {
+	what     string
+	rl       *x509.RevocationList
+	raw, sig []byte
+}
+
 type c18Bundle struct {
 	b           *corecrl.Bundle
 	base, delta *x509.RevocationList // what the harness put there: the library must not modify a cached bundle in place
@@ -293,6 +301,7 @@ func (s *c18Scenario) body(c *mc.Ctx) {
 	}
 	var hist []string
 	fetches := 0
+	var handedOut []c18Kept
 	for step := 0; step < s.depth; step++ {
 		k := c.ChooseFree("event", len(s.events)+1)
 		if k == 0 {
@@ -442,11 +451,26 @@ func (s *c18Scenario) body(c *mc.Ctx) {
 				c.Fail(sig("cached bundle modified in place by Fetch"), "history %v: the bundle object held by the cache (%s) was changed by the fetcher (delta now nil: %v)", hist, descOf(prevEntry), prevEntry.b.DeltaCRL == nil)
 				return
 			}
+			// bundles handed out by earlier fetches still hold what they held (a later download must not write into them)
+			for _, k := range handedOut {
+				if !bytes.Equal(k.rl.Raw, k.raw) || !bytes.Equal(k.rl.Signature, k.sig) {
+					c.Fail(sig("a CRL returned by an earlier fetch changed during a later one"), "history %v: %s", hist, k.what)
+					return
+				}
+			}
 			// ---- statement-level oracle (independent of the prediction) ----
 			if ferr == nil {
 				if bundle == nil || bundle.BaseCRL == nil {
 					c.Fail(sig("nil bundle without error"), "history %v", hist)
 					return
+				}
+				for _, part := range []struct {
+					n  string
+					rl *x509.RevocationList
+				}{{"base", bundle.BaseCRL}, {"delta", bundle.DeltaCRL}} {
+					if part.rl != nil {
+						handedOut = append(handedOut, c18Kept{fmt.Sprintf("%s CRL of fetch #%d", part.n, fetches), part.rl, append([]byte(nil), part.rl.Raw...), append([]byte(nil), part.rl.Signature...)})
+					}
 				}
 				eff := func(rl *x509.RevocationList) bool {
 					return rl != nil && !rl.NextUpdate.IsZero() && rl.NextUpdate.After(time.Now())
@@ -460,10 +484,21 @@ func (s *c18Scenario) body(c *mc.Ctx) {
 						return
 					}
 				case downloaded:
-					_, wantBase := w.base(verBefore, s.shape)
+					wantDER, wantBase := w.base(verBefore, s.shape)
 					if bundle.BaseCRL.Number.Cmp(wantBase.Number) != 0 {
 						c.Fail(sig("returned base CRL is not the downloaded one"), "history %v: number %v, server has %v", hist, bundle.BaseCRL.Number, wantBase.Number)
 						return
+					}
+					// byte for byte what the server sent (also after a delta was downloaded in the same call)
+					if !bytes.Equal(bundle.BaseCRL.Raw, wantDER) {
+						c.Fail(sig("returned base CRL does not hold the bytes the server sent"), "history %v: Raw differs from the served base CRL", hist)
+						return
+					}
+					if bundle.DeltaCRL != nil {
+						if dDER, _ := w.delta(verBefore); !bytes.Equal(bundle.DeltaCRL.Raw, dDER) {
+							c.Fail(sig("returned delta CRL does not hold the bytes the server sent"), "history %v: Raw differs from the served delta CRL", hist)
+							return
+						}
 					}
 					if s.cache {
 						found := false
